@@ -22,8 +22,14 @@ printers; composed there with `named_segment_text` / `writer_mappings_decode` of
 
 OPEN — carried by K/O only (no theorem): original positions are at token starts IN THE SOURCE TEXT (the AST positions are
 taken as given here; checked on the real output against the real input files — and violated when an astral character precedes
-the token on its line, known finding `e2e:original-column-counts-code-points`); the resolver printer's plugins (see the OPEN
-block of `Props/C06Sites.lean`; the bodies of the operation printers are modelled and proved in `Props/C06Bodies.lean`).
+the token on its line, known finding `e2e:original-column-counts-code-points`, still open); the resolver printer's plugins (see the OPEN
+block of `Props/C06Sites.lean`; the bodies of the operation printers are modelled and proved in `Props/C06Bodies.lean`);
+the exact amount of indentation the writer inserts (modelled in `run`, compared by K `ops`; no theorem states the column of
+a line's first token — see the OPEN block of `Props/C06Bodies.lean`); the schema-file mapper of `FileMap`
+(`fileIndicesSchema`: modelled, compared by K `e2e:sources-list`; `file_remap_in_range` is about the operation mapper);
+the JSON rendering of the map and the relative paths in `sources` (comment at the end of this file).
+Every writer theorem below takes the existence of the run (`run … = some st`, i.e. no panic) as a hypothesis; for printer call
+sequences it is discharged by `printer_calls_do_not_panic` (`Props/C06Sites.lean`) under `FilesInMapper`.
 -/
 namespace NitroVerif.SourceMap
 open NitroVerif.SourceMapSpec (b64Val vlqDecode decodeMappings Segment strictSegments strictGo)
